@@ -115,14 +115,16 @@ var (
 )
 
 func c16GenTags(t *rapid.T, maxTags int) []c16Tag {
-	n := rapid.OneOf(
-		rapid.IntRange(0, 1),
-		rapid.IntRange(2, 3),
-		rapid.IntRange(2, 3),
-		rapid.IntRange(4, maxTags),
-	).Draw(t, "ntags")
-	if n > maxTags {
-		n = maxTags
+	n := 0
+	if maxTags < 4 {
+		n = rapid.IntRange(0, maxTags).Draw(t, "ntags")
+	} else {
+		n = rapid.OneOf(
+			rapid.IntRange(0, 1),
+			rapid.IntRange(2, 3),
+			rapid.IntRange(2, 3),
+			rapid.IntRange(4, maxTags),
+		).Draw(t, "ntags")
 	}
 	if n == 0 {
 		return nil
